@@ -240,7 +240,9 @@ class C06(Prop):
             return None
         # inputs: the wrapped function must receive, under each ORIGINAL parameter, the value addressed by its current name,
         # or its default when omitted
-        exp_def = sorted(truth[o] for o in case["defaults"])
+        # (a mapped-over parameter of a nested-graph node has no usable default: the signature default inside is one item, not the
+        #  collection to map over — such an input is required, under every name it is given)
+        exp_def = sorted(truth[o] for o in case["defaults"] if not (case["target"] == "graph" and o in case["mapOver"]))
         if obs["defaulted"] != exp_def:
             return f"defaults do not follow their parameter: defaulted inputs {obs['defaulted']}, expected {exp_def}"
         mapped = set(case["mapOver"])
